@@ -12,11 +12,11 @@ CONSTANTS
   WakeAfterPush = TRUE
   Overflow = FALSE
   Hosts <- BothHosts
-  Muts = {"none"}
+  Muts = {"oldFlush"}
   Ops = {"o1"}
   Timers = {}
   Jobs = {"j1"}
   Owner <- OwnQJ
   AnyTurn = TRUE
 SPECIFICATION XSpec
-INVARIANTS XTypeOK PendingBound TypeOK FindingStrict
+INVARIANTS XTypeOK PendingBound TypeOK CtlOldFlush
